@@ -102,7 +102,7 @@ func (wwDevice) Pin() string        { return "001-02-003" }
 // (context switches at mutex operations, at the socket write and at every access of the
 // frame counter, bounded number of preemptions) the peer decrypts every frame in the order
 // it arrives and each payload comes out intact and contiguous.
-func c08Run(n int, lens []int, preemptions int) {
+func c08Run(n int, lens []int, preemptions int, keepAlive bool) {
 	verif.Preemptions(preemptions)
 	verif.WatchField("encryptCount")
 	var secret [32]byte
@@ -124,11 +124,23 @@ func c08Run(n int, lens []int, preemptions int) {
 		// bytes of different writers mixed into one message are recognised under every
 		// interleaving, also one the native replay happens to take instead of the engine's
 		for j := range payloads[i] {
-			payloads[i][j] = payloads[i][j]&0x3F | byte(i)<<6
+			payloads[i][j] = payloads[i][j]&0x3F | byte(i+4-n)<<6 // (two writers: tags 2 and 3, so that the ASCII keep-alive is no writer's)
 		}
 	}
 	var wg sync.WaitGroup
 	wg.Add(n)
+	if keepAlive {
+		// a keep-alive tick is a third writer: an empty notification to every active connection
+		var kb bytes.Buffer
+		NewNotification(new(bytes.Buffer)).Write(&kb)
+		payloads = append(payloads, FixProtocolSpecifier(kb.Bytes()))
+		ka := NewKeepAlive(0, ctx)
+		wg.Add(1)
+		go func() {
+			defer wg.Done()
+			verif.Assert(!verif.Panics(func() { ka.sendKeepAlive() }), "nopanic-keep-alive")
+		}()
+	}
 	// natively the writers are started longest payload first, a few milliseconds apart, so
 	// that "a multi-frame writer is under way when a short one arrives" is the typical native
 	// interleaving; the engine explores every schedule regardless of the start order
@@ -147,7 +159,7 @@ func c08Run(n int, lens []int, preemptions int) {
 		p := payloads[order[k]]
 		go func() {
 			defer wg.Done()
-			hc.Write(p)
+			verif.Assert(!verif.Panics(func() { hc.Write(p) }), "nopanic-concurrent-write")
 		}()
 		if !verif.IsSymbolic() {
 			time.Sleep(3 * time.Millisecond)
@@ -172,11 +184,11 @@ func c08Run(n int, lens []int, preemptions int) {
 		got = append(got, d)
 	}
 	// every payload arrives exactly once, intact (message boundaries = Decrypt calls)
-	verif.Assert(len(got) == n, "one-message-per-write")
-	if len(got) != n {
+	verif.Assert(len(got) == len(payloads), "one-message-per-write")
+	if len(got) != len(payloads) {
 		return
 	}
-	used := make([]bool, n)
+	used := make([]bool, len(payloads))
 	for _, g := range got {
 		found := false
 		for i := range payloads {
@@ -196,9 +208,15 @@ func c08Run(n int, lens []int, preemptions int) {
 // goroutine that has been waiting for more than a millisecond, which happens at the second
 // unlock at the earliest.
 func Harness_C08_q_two_writers() {
-	c08Run(2, []int{1, 2049}, 2)
+	c08Run(2, []int{1, 2049}, 2, false)
+}
+
+// Two writers and a keep-alive tick (hap.KeepAlive sends an empty notification to every
+// active connection) at the same time.
+func Harness_C08_q_writers_and_keep_alive() {
+	c08Run(2, []int{1, 2049}, 2, true)
 }
 
 func Harness_C08_t_three_writers() {
-	c08Run(3, []int{1, 2049}, 2)
+	c08Run(3, []int{1, 2049}, 2, false)
 }
